@@ -374,3 +374,129 @@ Theorem C13_mpf_si_instances :
   si_model SiDiv F2 F1 (-9223372036854775808) = prog_mpf_si_div_m9223372036854775808_p0 /\ si_model SiDiv F1 F1 (-9223372036854775808) = prog_mpf_si_div_m9223372036854775808_p1.
 Proof. exact si_instances. Qed.
 Print Assumptions C13_mpf_si_instances.
+
+(* ------------------------------------------------------------------ link.c and gmptools.c mpf_get_2dl / mpf_set_2dl on GMP's limb layout
+   Model: Mpc/LinkModel.v, statement by statement over Z (no real numbers: these theorems are closed under the global context).
+   An mpf is {_mp_prec, _mp_size, _mp_exp, limbs D}: value sign * D * 2^(64 * (exp - n)), n = |size|.  A double is DFin sign m e
+   = +- m * 2^e in IEEE-canonical form; an rdpe is (mantissa double, long exponent).  [UB] = signed long overflow in the C text.
+   The model is compared bit for bit with the library on every run (bin/link against harness/c13_link.c). *)
+Require Import MPSV.Mpc.LinkModel MPSV.Mpc.LinkProofs.
+Open Scope Z_scope.
+
+(* mpf_get_rdpe (every precision, every limb content, |_mp_exp| < 2^57, f <> 0): no long overflow, the source struct is restored,
+   the result is normalised (mantissa q / 2^53 in [1/2, 1)), has the sign of f and is the truncation of f to 53 bits:
+   with k = (Esp - 53) - 64 * (exp - n) the number of dropped low bits,  q * 2^k <= D  (never larger)  and
+   2^52 * (D - q * 2^k) <= D  (relative error <= 2^-52);  for k < 0 the conversion is exact. *)
+Theorem C13_link_get_rdpe_truncation :
+  forall f, wf_mpf f = true -> m_size f <> 0 -> - 2 ^ 57 < m_exp f < 2 ^ 57 ->
+  exists q Esp,
+    mpf_get_rdpe f = Ok ((DFin (m_neg f) q (-53), Esp), f, [0; m_exp f]) /\
+    2 ^ 52 <= q < 2 ^ 53 /\ LMIN < Esp < LMAX /\
+    let k := (Esp - 53) - 64 * (m_exp f - m_n f) in
+    (0 <= k -> q * 2 ^ k <= m_d f /\ 2 ^ 52 * (m_d f - q * 2 ^ k) <= m_d f) /\
+    (k < 0 -> q = m_d f * 2 ^ (- k)).
+Proof. exact get_rdpe_trunc. Qed.
+Print Assumptions C13_link_get_rdpe_truncation.
+
+(* zero is kept (canonical DPE zero) *)
+Theorem C13_link_get_rdpe_zero :
+  forall f, wf_mpf f = true -> m_size f = 0 -> - 2 ^ 57 < m_exp f < 2 ^ 57 ->
+    mpf_get_rdpe f = Ok ((DZero, 0), f, [0; m_exp f]).
+Proof. exact get_rdpe_zero. Qed.
+Print Assumptions C13_link_get_rdpe_zero.
+
+Example C13_link_get_rdpe_concrete :
+  wf_mpf f_three = true /\
+  mpf_get_rdpe f_three = Ok ((DFin false (3 * 2 ^ 51) (-53), 66), f_three, [0; 2]) /\
+  mpf_get_2dl f_three = Ok (DFin false (3 * 2 ^ 51) (-53), 66, f_three, [0; 2]).
+Proof. exact f_three_facts. Qed.
+
+(* gmptools.c mpf_get_2dl / mpf_size_2 return the same mantissa and exponent (same range, same theorems) *)
+Theorem C13_link_get_2dl_is_get_rdpe :
+  forall f, wf_mpf f = true -> m_size f <> 0 -> - 2 ^ 57 < m_exp f < 2 ^ 57 ->
+  exists d l, mpf_get_2dl f = Ok (d, l, f, [0; m_exp f]) /\ mpf_get_rdpe f = Ok ((d, l), f, [0; m_exp f])
+              /\ mpf_size_2 f = Ok l.
+Proof. exact get_2dl_is_get_rdpe. Qed.
+Print Assumptions C13_link_get_2dl_is_get_rdpe.
+
+(* mpf_set_rdpe / mpf_set_2dl: exact for every finite non-zero double mantissa (normalised or not), every destination precision and
+   every exponent except LONG_MIN: the result is well formed, has the sign s, and its limbs are m * 2^t with
+   64 * (exp' - n') = e + l - t, i.e. its value is m * 2^(e + l) *)
+Theorem C13_link_set_rdpe_exact :
+  forall prec s m e l, 2 <= prec < 2 ^ 31 -> 0 < m < 2 ^ 53 -> LMIN < l <= LMAX ->
+  exists f', mpf_set_rdpe prec (DFin s m e, l) = Ok f' /\
+    wf_mpf f' = true /\ m_size f' <> 0 /\ m_neg f' = s /\ m_prec f' = prec /\
+    exists t, 0 <= t /\ m_d f' = m * 2 ^ t /\ 64 * (m_exp f' - m_n f') = e + l - t.
+Proof. exact set_2dl_exact. Qed.
+Print Assumptions C13_link_set_rdpe_exact.
+
+Theorem C13_link_set_rdpe_zero :
+  forall prec l, LMIN < l <= LMAX -> mpf_set_rdpe prec (DZero, l) = Ok (mkmpf prec 0 0 0).
+Proof. exact set_2dl_zero. Qed.
+Print Assumptions C13_link_set_rdpe_zero.
+
+(* double -> DPE (rdpe_set_d) -> mpf (mpf_set_rdpe) -> DPE (mpf_get_rdpe) gives back the same DPE, for every finite non-zero double
+   (subnormals included) and every destination precision *)
+Theorem C13_link_roundtrip :
+  forall prec s m e, 2 <= prec < 2 ^ 31 -> canon_dbl (DFin s m e) = true ->
+  exists f', mpf_set_rdpe prec (rdpe_set_d (DFin s m e)) = Ok f' /\ wf_mpf f' = true /\
+             mpf_get_rdpe f' = Ok (rdpe_set_d (DFin s m e), f', [0; m_exp f']).
+Proof. exact roundtrip. Qed.
+Print Assumptions C13_link_roundtrip.
+
+Example C13_link_roundtrip_concrete :     (* the smallest subnormal, 2^-1074 *)
+  canon_dbl (DFin false 1 (-1074)) = true /\ rdpe_set_d (DFin false 1 (-1074)) = (DFin false (2 ^ 52) (-53), -1073).
+Proof. split; vm_compute; reflexivity. Qed.
+
+(* every call of mpf_get_rdpe / mpf_get_2dl stores 0 and then the old value into the SOURCE's _mp_exp (restored at the end) *)
+Theorem C13_link_get_rdpe_source_restored_but_written :
+  forall f, wf_mpf f = true -> - 2 ^ 57 < m_exp f < 2 ^ 57 ->
+    (exists r, mpf_get_rdpe f = Ok (r, f, [0; m_exp f])) /\ (exists d l, mpf_get_2dl f = Ok (d, l, f, [0; m_exp f])).
+Proof. exact (fun f W X => conj (get_rdpe_source f W X) (get_2dl_source f W X)). Qed.
+Print Assumptions C13_link_get_rdpe_source_restored_but_written.
+
+(* REFUTED: 'conversions leave their source operand unchanged' in the sense of 'never written': a witness with the transient
+   _mp_exp = 0 different from the real one (replayed by the check with the struct in a read-only page: SIGSEGV) *)
+Theorem C13_mpf_get_rdpe_source_never_written_refuted :
+  exists f r f' w, wf_mpf f = true /\ mpf_get_rdpe f = Ok (r, f', w) /\ w <> [] /\ In 0 w /\ m_exp f <> 0.
+Proof.
+  exists f_three, (DFin false (3 * 2 ^ 51) (-53), 66), f_three, [0; 2].
+  destruct f_three_facts as [W [E _]]. split; [exact W|]. split; [exact E|].
+  split; [discriminate|]. split; [left; reflexivity|]. vm_compute. discriminate.
+Qed.
+Print Assumptions C13_mpf_get_rdpe_source_never_written_refuted.
+
+(* REFUTED: 'no undefined behaviour for every representable mpf': _mp_exp = 2^57 (the value 2^(2^63-1), reachable by mpf_mul_2exp)
+   overflows `esp * mp_bits_per_limb`; the rewrite through mpf_get_d_2exp moves the same overflow into GMP *)
+Theorem C13_mpf_get_rdpe_long_overflow_refuted :
+  exists f, wf_mpf f = true /\ m_exp f = 2 ^ 57 /\ mpf_get_rdpe f = UB UbMul /\ mpf_get_2dl f = UB UbMul /\
+            mpf_size_2 f = UB UbMul /\ mpf_get_rdpe_fixed f = UB UbGmp.
+Proof. exists f_exp_2p57. destruct f_exp_2p57_facts as (A & B & C & D & E). repeat split; assumption. Qed.
+Print Assumptions C13_mpf_get_rdpe_long_overflow_refuted.
+
+(* REFUTED: 'mpf_set_rdpe is defined for every DPE number': Esp = LONG_MIN (the library constant RDPE_MIN) overflows `-rdpe_Esp (e)`,
+   and so does mpf_set_2dl (f, 0.5, LONG_MIN) *)
+Theorem C13_mpf_set_rdpe_long_min_refuted :
+  exists e, canon_dbl (fst e) = true /\ in_long (snd e) = true /\ mpf_set_rdpe 2 e = UB UbNeg /\
+            mpf_set_2dl 2 (fst e) (snd e) = UB UbNeg.
+Proof. exists RDPE_MIN_model. exact rdpe_min_facts. Qed.
+Print Assumptions C13_mpf_set_rdpe_long_min_refuted.
+
+(* the proposed repairs: negation in unsigned long (defined and exact for EVERY long, identical elsewhere) ... *)
+Theorem C13_link_set_2dl_fixed :
+  (forall prec s m e l, 2 <= prec < 2 ^ 31 -> 0 < m < 2 ^ 53 -> LMIN <= l <= LMAX ->
+     exists f', mpf_set_2dl_fixed prec (DFin s m e) l = Ok f' /\
+       wf_mpf f' = true /\ m_size f' <> 0 /\ m_neg f' = s /\ m_prec f' = prec /\
+       exists t, 0 <= t /\ m_d f' = m * 2 ^ t /\ 64 * (m_exp f' - m_n f') = e + l - t) /\
+  (forall prec d l, LMIN < l <= LMAX -> mpf_set_2dl_fixed prec d l = mpf_set_2dl prec d l).
+Proof. exact (conj set_2dl_fixed_exact set_2dl_fixed_agrees). Qed.
+Print Assumptions C13_link_set_2dl_fixed.
+
+(* ... and mpf_get_d_2exp instead of zeroing the source's exponent: same result on the whole range, no store into the source *)
+Theorem C13_link_get_rdpe_fixed_equivalent :
+  (forall f, wf_mpf f = true -> - 2 ^ 57 < m_exp f < 2 ^ 57 ->
+     exists r, mpf_get_rdpe_fixed f = Ok r /\ mpf_get_rdpe f = Ok (r, f, [0; m_exp f])) /\
+  (forall f, wf_mpf f = true -> m_size f <> 0 -> - 2 ^ 57 < m_exp f < 2 ^ 57 ->
+     exists d l, mpf_get_2dl_fixed f = Ok (d, l) /\ mpf_get_2dl f = Ok (d, l, f, [0; m_exp f])).
+Proof. exact (conj get_rdpe_fixed_equiv get_2dl_fixed_equiv). Qed.
+Print Assumptions C13_link_get_rdpe_fixed_equivalent.
